@@ -95,13 +95,19 @@ theorem channels_only_pubsub_rows :
     (Gen.commandTable.all fun r => r.cats.contains "pubsub" || r.module != "pubsub" || r.sub == "" && r.name == "pubsub") = true := by
   decide +kernel
 
+theorem hello_not_denied (a : AclState) (cid : Nat) (cmd : List Bytes) (sha : Bytes) (d : Deny) :
+    (helloHandler a cid cmd sha).2 ≠ .denied d := by
+  unfold helloHandler
+  repeat' split
+  all_goals simp
+
 /-- the handlers never answer with a gate refusal of their own -/
 theorem handler_not_denied (a : AclState) (cid : Nat) (cmd : List Bytes) (sha : Bytes) (d : Deny) :
     (aclHandler a cid cmd sha).2 ≠ .denied d := by
   unfold aclHandler
   simp only
   repeat' split
-  all_goals simp
+  all_goals first | exact hello_not_denied _ _ _ _ _ | simp
 
 /-- **A denied command has no effect** on users, rules or connection identities, and never reaches a
     handler: if the gate refuses, the state is returned unchanged — and a refusal can only come from the gate. -/
